@@ -160,7 +160,7 @@ fn expect(q: &Q, svcs: &[RefSvc], intfs: &[SimIntf], ifi: u32, transport_v4: boo
     (req, extra, demand)
 }
 
-fn question_menu(svcs: &[RefSvc]) -> Vec<Q> {
+fn question_menu(svcs: &[RefSvc], extra_names: &[Name]) -> Vec<Q> {
     let mut names: Vec<(Name, bool)> = vec![];
     let up = |nm: &Name| -> Name {
         let mut v = nm.clone();
@@ -179,6 +179,14 @@ fn question_menu(svcs: &[RefSvc]) -> Vec<Q> {
     push(n("two._u._udp.local"));
     push(n("host.local"));
     push(n("other.local"));
+    let base: Vec<Name> = ["_t._tcp.local", "_s._sub._t._tcp.local", "_u._udp.local", META, "one._t._tcp.local", "two._u._udp.local", "host.local", "other.local"].iter().map(|x| n(x)).collect();
+    let mut seen: Vec<Name> = base;
+    for e in extra_names {
+        if !seen.contains(e) {
+            seen.push(e.clone());
+            push(e.clone());
+        }
+    }
     let _ = svcs;
     let mut v = vec![];
     for (nm, odd) in names {
@@ -220,7 +228,12 @@ fn ips_for(intfs: &[SimIntf]) -> (String, Vec<IpAddr>) {
     (v.iter().map(|a| a.to_string()).collect::<Vec<_>>().join(","), v)
 }
 
-fn run_state(layout: usize, ops: &[Op], probing_extra: bool, pairs: bool, trace: bool) -> CaseResult {
+/// `rename`: bit 0 = a scripted peer claims the instance name of the first registration while it is
+/// being probed (SRV+TXT with other data), bit 1 = it claims the host name (A and AAAA with other
+/// data); the claim is made on every interface.  The names the daemon ends up with are read from its
+/// own last announcement per interface (whether the renaming itself is right is C08's business); C06
+/// demands that queries are answered under exactly those names and no longer under the old ones.
+fn run_state(layout: usize, ops: &[Op], probing_extra: bool, pairs: bool, rename: u64, trace: bool) -> CaseResult {
     let mut res = CaseResult::default();
     let (_, intfs) = layouts().swap_remove(layout);
     let (ipstr, ipv) = ips_for(&intfs);
@@ -229,6 +242,7 @@ fn run_state(layout: usize, ops: &[Op], probing_extra: bool, pairs: bool, trace:
     w.ds[0].h.set_ip_check_interval(3600).unwrap();
     w.poke(0);
     let mut refs: BTreeMap<String, RefSvc> = BTreeMap::new();
+    let mut injected = rename == 0;
     for op in ops {
         match op {
             Op::Reg1 | Op::Reg1b => {
@@ -259,6 +273,31 @@ fn run_state(layout: usize, ops: &[Op], probing_extra: bool, pairs: bool, trace:
             }
         }
         w.poke(0);
+        if !injected && matches!(op, Op::Reg1 | Op::Reg1b | Op::Reg2) {
+            injected = true;
+            w.advance(100);
+            let inst = if *op == Op::Reg2 { n("two._u._udp.local") } else { n("one._t._tcp.local") };
+            let host = n("host.local");
+            let ifs: Vec<u32> = { let mut v: Vec<u32> = intfs.iter().map(|i| i.index).collect(); v.sort(); v.dedup(); v };
+            for ifi in ifs {
+                let mut recs = vec![];
+                if rename & 1 != 0 {
+                    recs.push(srv(&inst, &n("elsewhere.local"), 9, 120));
+                    recs.push(txt(&inst, &[1, b'z'], 4500));
+                }
+                if rename & 2 != 0 {
+                    if ifi == IF0 {
+                        recs.push(a(&host, [10, 0, 0, 200], 120));
+                        recs.push(aaaa(&host, "fd00::200".parse().unwrap(), 120));
+                    } else {
+                        recs.push(a(&host, [10, 0, 1, 200], 120));
+                        recs.push(aaaa(&host, "fd00:1::200".parse().unwrap(), 120));
+                    }
+                }
+                let src = if ifi == IF0 { "10.0.0.200:5353" } else { "10.0.1.200:5353" };
+                w.deliver(0, ifi, src, build(&response(recs)));
+            }
+        }
         w.advance(3000);
     }
     if probing_extra {
@@ -270,8 +309,52 @@ fn run_state(layout: usize, ops: &[Op], probing_extra: bool, pairs: bool, trace:
         w.advance(300);
         refs.insert("three._t._tcp.local.".into(), RefSvc { ty: n("_t._tcp.local"), sub: None, inst: n("three._t._tcp.local"), host: n("host3.local"), port: 83, txt: vec![0], addrs: ipv.clone(), announced: false });
     }
+    // names in force per interface: those of the daemon's own last announcement there
+    let mut extra_names: Vec<Name> = vec![];
+    let mut per_if: BTreeMap<u32, Vec<RefSvc>> = BTreeMap::new();
+    for i in &intfs {
+        if per_if.contains_key(&i.index) {
+            continue;
+        }
+        let mut v: Vec<RefSvc> = vec![];
+        for s in refs.values() {
+            let mut s = s.clone();
+            let mut last: Option<(Name, Name)> = None;
+            for (_, o) in outs(&w, 0, 0) {
+                if o.if_index != Some(i.index) || !o.is_multicast() {
+                    continue;
+                }
+                if let Ok(m) = &o.msg {
+                    if !m.is_response() {
+                        continue;
+                    }
+                    for r in m.all_records() {
+                        if let RD::Srv { target, .. } = &r.rd {
+                            if r.ttl > 0 && r.name.len() == s.inst.len() && name_eq_ci(&r.name[1..].to_vec(), &s.inst[1..].to_vec()) && r.name[0].to_ascii_lowercase().starts_with(&s.inst[0].to_ascii_lowercase()) {
+                                last = Some((r.name.clone(), target.clone()));
+                            }
+                        }
+                    }
+                }
+            }
+            if let Some((inst, host)) = last {
+                if !name_eq_ci(&inst, &s.inst) || !name_eq_ci(&host, &s.host) {
+                    res.count("renamed_service_views", 1);
+                    extra_names.push(lower(&inst));
+                    extra_names.push(lower(&host));
+                }
+                s.inst = inst;
+                s.host = host;
+            }
+            v.push(s);
+        }
+        per_if.insert(i.index, v);
+    }
+    if rename != 0 {
+        extra_names.extend([n("one (2)._t._tcp.local"), n("two (2)._u._udp.local"), n("host-2.local")]);
+    }
     let svcs: Vec<RefSvc> = refs.values().cloned().collect();
-    let menu = question_menu(&svcs);
+    let menu = question_menu(&svcs, &extra_names);
     // arrival points: (if_index, source address, v4 transport?)
     let mut arrivals: Vec<(u32, String, bool)> = vec![(IF0, "10.0.0.9".into(), true)];
     if intfs.iter().any(|i| i.index == IF0 && i.ip.is_ipv6()) {
@@ -295,7 +378,7 @@ fn run_state(layout: usize, ops: &[Op], probing_extra: bool, pairs: bool, trace:
         let mut allowed: Vec<Record> = vec![];
         let mut demand = true;
         for q in qs {
-            let (r, e, d) = expect(q, &svcs, &intfs, arr.0, arr.2);
+            let (r, e, d) = expect(q, &per_if[&arr.0], &intfs, arr.0, arr.2);
             allowed.extend(r.iter().map(canon));
             allowed.extend(e.iter().map(canon));
             req.extend(r.iter().map(canon));
@@ -434,16 +517,17 @@ pub fn check(tier: &str) -> i32 {
         nseq += b;
         b *= OPS.len() as u64;
     }
-    let dims = [nseq, 3, 2];
+    let dims = [nseq, 3, 2, 4];
     let part = FnPart {
         name: "states-x-queries".into(),
-        rule: format!("every register / re-register / unregister sequence of depth <= {depth} over two services x 3 interface layouts x (all announced | a third service still probing); in each state every single question (16 names x 7 types) from port 5353 and 40000 on every interface and IP family, and every ordered pair of questions; non-trivial = at least one service registered"),
+        rule: format!("every register / re-register / unregister sequence of depth <= {depth} over two services x 3 interface layouts x (all announced | a third service still probing) x (no conflict | the first registration's instance name, host name or both claimed by a scripted peer during probing, so the service is renamed); in each state every single question (16 names x 7 types) from port 5353 and 40000 on every interface and IP family, and every ordered pair of questions (quick tier: pairs in the states without a rename only); after a rename both the old and the new names are asked; non-trivial = at least one service registered"),
         n: product(&dims),
-        describe: Box::new(move |i| { let x = unrank(i, &dims); format!("layout {} ops {:?} probing_extra {}", layouts()[x[1] as usize].0, seq_of(x[0], depth), x[2] == 1) }),
-        run: Box::new(move |i, tr| { let x = unrank(i, &dims); run_state(x[1] as usize, &seq_of(x[0], depth), x[2] == 1, true, tr) }),
+        describe: Box::new(move |i| { let x = unrank(i, &dims); format!("layout {} ops {:?} probing_extra {} rename {}", layouts()[x[1] as usize].0, seq_of(x[0], depth), x[2] == 1, x[3]) }),
+        run: Box::new(move |i, tr| { let x = unrank(i, &dims); run_state(x[1] as usize, &seq_of(x[0], depth), x[2] == 1, thorough || x[3] == 0, x[3], tr) }),
     };
     rep.run_part(&part, Duration::from_secs(if thorough { 3000 } else { 50 }));
     rep.require("states-x-queries", "responses_checked");
     rep.require("states-x-queries", "legacy_responses_checked");
+    rep.require("states-x-queries", "renamed_service_views");
     rep.finish()
 }
